@@ -97,6 +97,25 @@ VEnd(e) ==
         ELSE IF ~FilesOK(T, e) THEN V("C44_FilesCleaned", H)
         ELSE V("", T)
 
+\* joint uploads: each client's own result (jend, in arrival order), then the state of grid and helper (jfinal).  The first
+\* result of a session ends it (encode + push happened); a client that shared that session, or came after it, adds nothing
+VJEnd(e) ==
+  IF e.outcome # "ok" THEN V("C44_UnexpectedFailure:" \o e.error, H)
+  ELSE IF ~e.capeq THEN V("C44_CapEqual", H)
+  ELSE IF H.mode = "session"
+    THEN LET S == Settled(H) IN
+         IF ~CanEncode(S) THEN V("C44_SucceededWithoutCiphertext", H) ELSE V("", EncodePush(Cn, S))
+  ELSE V("", H)
+VJFinal(e) ==
+  IF e.outcome = "hang" THEN V("C44_Terminates", H)
+  ELSE IF e.active # 0 THEN V("C44_SessionLeftActive", H)
+  ELSE IF e.outcome # "ok" THEN V("C44_UnexpectedFailure:" \o e.error, H)
+  ELSE IF H.mode = "session" THEN V("C44_SessionLeftActive", H)
+  ELSE IF ~e.shareseq THEN V("C44_SharesEqual", H)
+  ELSE IF ToSet(e.present) # PresentShares(Cn, H) THEN V("C44_Complete", H)
+  ELSE IF ~FilesOK(H, e) THEN V("C44_FilesCleaned", H)
+  ELSE V("", H)
+
 VLose(e) == V("", LoseShares(Cn, H, ToSet(e.present)))
 
 Verdict(e) ==
@@ -106,6 +125,8 @@ Verdict(e) ==
     [] e.ev = "get_all_encoding_parameters" -> VParams(e)
     [] e.ev = "end" -> VEnd(e)
     [] e.ev = "lose_shares" -> VLose(e)
+    [] e.ev = "jend" -> VJEnd(e)
+    [] e.ev = "jfinal" -> VJFinal(e)
     [] OTHER -> V("unknown_event", H)
 
 \* the Spec's own invariants, evaluated on every state of a real execution
